@@ -53,6 +53,9 @@ type inst struct {
 	epoch  func() eth2p0.Epoch                           // epoch whose fork version the domain uses (spec)
 	wrap   func(sig eth2p0.BLSSignature) core.SignedData // the wire object carrying sig, from the current field values
 	fields []field
+	// setEpoch (nil = not expressible) rewrites, before signing, the field the spec derives the domain epoch
+	// from when that field is independent of the duty's slot (attestation: data.target.epoch)
+	setEpoch func(eth2p0.Epoch)
 
 	// validator-client path (nil submit = the type has no VC submission endpoint)
 	prep    func(n *cluster.Node) error                                               // dutydb / scheduler state the endpoint needs
@@ -164,6 +167,7 @@ func mkAttDeneb(e *env, p params) *inst {
 	in := &inst{duty: core.NewAttesterDuty(p.slot), fields: attFields(d)}
 	in.root = func() eth2p0.Root { r, err := d.HashTreeRoot(); must(err); return r }
 	in.epoch = func() eth2p0.Epoch { return d.Target.Epoch }
+	in.setEpoch = func(ep eth2p0.Epoch) { d.Target.Epoch = ep }
 	in.wrap = func(sig eth2p0.BLSSignature) core.SignedData {
 		a, err := core.NewVersionedAttestation(att(sig))
 		must(err)
@@ -204,6 +208,7 @@ func mkAttElectra(e *env, p params) *inst {
 	in := &inst{duty: core.NewAttesterDuty(p.slot), fields: attFields(d)}
 	in.root = func() eth2p0.Root { r, err := d.HashTreeRoot(); must(err); return r }
 	in.epoch = func() eth2p0.Epoch { return d.Target.Epoch }
+	in.setEpoch = func(ep eth2p0.Epoch) { d.Target.Epoch = ep }
 	in.wrap = func(sig eth2p0.BLSSignature) core.SignedData {
 		a, err := core.NewVersionedAttestation(att(sig))
 		must(err)
